@@ -541,7 +541,7 @@ func checkC07WSIgn(c *Ctx, sw *ScopeWS, jsonCfg string, ign *c07Ignore, tag stri
 						why = fmt.Sprintf("%d reads", len(d.Reads))
 						allTrig := true
 						for _, rd := range d.Reads {
-							if !isResolverClass(lineFeatures(f.Src, rd.Tok) + "|" + occClass(f, rd)) {
+							if !c07Quirk(f, rd) {
 								allTrig = false
 							}
 						}
@@ -620,12 +620,12 @@ func checkC07WSIgn(c *Ctx, sw *ScopeWS, jsonCfg string, ign *c07Ignore, tag stri
 					if f.TokRange(w.Tok) == dg.Range {
 						allTrig := true
 						for _, rd := range d.Reads {
-							if !isResolverClass(lineFeatures(f.Src, rd.Tok) + "|" + occClass(f, rd)) {
+							if !c07Quirk(f, rd) {
 								allTrig = false
 							}
 						}
 						rc := "some-read-plain"
-						if isResolverClass(lineFeatures(f.Src, w.Tok) + "|" + occClass(f, w)) {
+						if c07Quirk(f, w) {
 							rc = "write-in-resolver-trigger-class"
 						}
 						if allTrig {
@@ -645,4 +645,20 @@ func unparen(e *Node) *Node {
 		e = e.A
 	}
 	return e
+}
+
+// c07Quirk: does the occurrence lie in a trigger class in which the analysis traversal (not only the position-based
+// query resolver) of the pinned tree is known to bind a name wrongly (C07-K1..K3)? Every enclosing construct counts,
+// not only the innermost. The limit and step of a same-named numeric for are not among them: the traversal analyses
+// them before it declares the control variable (the init expression is).
+func c07Quirk(f *SFile, o *Occ) bool {
+	if lineFeatures(f.Src, o.Tok) != "-" {
+		return true
+	}
+	for cls := range occTriggerSet(f, o) {
+		if cls != "in-bounds-of-same-named-numeric-for:limit-or-step" {
+			return true
+		}
+	}
+	return false
 }
